@@ -8,6 +8,16 @@ package main
 // cases is the auto-save's own decision whether anything changed since the load: a change made from inside a
 // function, by del, through an index assignment or a ++ must count like a plain assignment.
 //
+//
+// Second part of the family: what the session did with a value BEFORE it changed it - printed it, echoed it, saved it
+// (save(), or the auto-save of the previous session) - must not matter either: println(bm); bm.a = 7 in one session,
+// or spread over sessions, through a function, in a loop, for small / large arrays and maps and containers inside
+// containers.  An input that starts with "@echo " is evaluated the way the interactive REPL does (result printed).
+//
+// The sessions are observed through Type/Unwrap-level accessors (objJSON), never through the printed form: a value
+// whose printed form is stale would otherwise look the same on both sides.  SaveLoad_Trace.tla judges the records
+// (k = "sess": RtFails of the last session's data globals against the fresh session's).
+//
 // Runs in a child process (`vh worker c14sess <in> <out>`) because auto-save works in the current directory.
 
 import (
@@ -24,6 +34,7 @@ import (
 	"time"
 
 	"grol.io/grol/eval"
+	"grol.io/grol/extensions"
 	"grol.io/grol/object"
 	"grol.io/grol/repl"
 )
@@ -36,35 +47,26 @@ type c14SessCase struct {
 }
 
 type c14SessRes struct {
-	ID     int               `json:"id"`
-	Memory map[string]string `json:"memory"` // data globals of the last session when it ended: name -> type:inspect
-	Loaded map[string]string `json:"loaded"` // data globals of a fresh session after auto-load
-	File   string            `json:"file"`
-	Err    string            `json:"err,omitempty"`
+	ID     int          `json:"id"`
+	Memory map[string]J `json:"memory"` // data globals of the last session when it ended: name -> observed value (objJSON)
+	Loaded map[string]J `json:"loaded"` // data globals of a fresh session after auto-load
+	File   string       `json:"file"`
+	Err    string       `json:"err,omitempty"`
 }
 
-func c14DataGlobals(s *eval.State) map[string]string {
-	out := map[string]string{}
-	var b bytes.Buffer
-	old := s.MaxValueLen
-	s.MaxValueLen = 0
-	_, _ = s.SaveGlobals(&b)
-	s.MaxValueLen = old
-	for _, ln := range strings.Split(b.String(), "\n") {
-		name, _, ok := strings.Cut(ln, "=")
-		if !ok || strings.ContainsAny(name, " ({") {
-			continue
-		}
+// c14DataGlobals: the data globals of a session, by name (info.globals), observed structurally.
+func c14DataGlobals(s *eval.State) map[string]J {
+	out := map[string]J{}
+	for _, name := range c14Globals(s) {
 		res, err, _ := c14Eval(s, name, 2*time.Second) // (sets a fresh context: EvalOne cancelled the session's last one)
 		if err != nil {
 			continue
 		}
 		v := object.Value(res)
-		switch v.Type() {
-		case object.FUNC, object.EXTENSION, object.MACRO, object.QUOTE:
+		if c14Kind(v) != "data" {
 			continue
 		}
-		out[name] = v.Type().String() + ":" + v.Inspect()
+		out[name] = objJSON(v)
 	}
 	return out
 }
@@ -78,6 +80,11 @@ func c14SessWorker(args []string) {
 	var cases []c14SessCase
 	if err := json.Unmarshal(b, &cases); err != nil {
 		fmt.Println(err)
+		os.Exit(2)
+	}
+	// the sessions of the grol binary: extensions initialised, load() and save() available
+	if err := extensions.Init(&extensions.Config{HasLoad: true, HasSave: true}); err != nil {
+		fmt.Println("extensions.Init:", err)
 		os.Exit(2)
 	}
 	base, _ := os.MkdirTemp("", "c14sess")
@@ -95,8 +102,12 @@ func c14SessWorker(args []string) {
 			s.Out, s.LogOut = &bytes.Buffer{}, &bytes.Buffer{}
 			_ = repl.AutoLoad(s, opts)
 			for _, in := range inputs {
+				o := opts
+				if strings.HasPrefix(in, "@echo ") {
+					in, o.ShowEval = strings.TrimPrefix(in, "@echo "), true
+				}
 				ctx, cancel := context.WithTimeout(context.Background(), 5*time.Second)
-				_, _, _, _ = repl.EvalOne(ctx, s, in, &bytes.Buffer{}, opts)
+				_, _, _, _ = repl.EvalOne(ctx, s, in, &bytes.Buffer{}, o)
 				cancel()
 			}
 			if err := repl.AutoSave(s, opts); err != nil {
@@ -133,15 +144,54 @@ func c14SessionHistories() []c14SessCase {
 		"for i = 2 {setx(i + 10)}", "if true {x = 4}", "catch(setx(6)).err", `setx("s")`, "setx(nil)", "setx([1])", "setx(x)", "x = x", "f2 = func() {1}", "func f3() {2}"}
 	var out []c14SessCase
 	id := 0
-	for _, ch := range changes {
-		out = append(out, c14SessCase{ID: id, Sessions: [][]string{setup, {ch}}})
-		id++
-		out = append(out, c14SessCase{ID: id, Sessions: [][]string{setup, {"readonly()"}, {ch}, {"readonly()"}}})
+	add := func(sessions ...[]string) {
+		out = append(out, c14SessCase{ID: id, Sessions: sessions})
 		id++
 	}
+	for _, ch := range changes {
+		add(setup, []string{ch})
+		add(setup, []string{"readonly()"}, []string{ch}, []string{"readonly()"})
+	}
 	for i := 0; i+1 < len(changes); i += 2 {
-		out = append(out, c14SessCase{ID: id, Sessions: [][]string{setup, {changes[i]}, {changes[i+1]}}})
-		id++
+		add(setup, []string{changes[i]}, []string{changes[i+1]})
+	}
+	// second part: the value was printed / echoed / saved before it is changed (an element it already has gets a new
+	// value; a scalar is set from inside a function)
+	setup2 := []string{`bm = {"a": 1, "b": 2, "c": 3, "d": 4, "e": 5}`, "ba = 1:12", `sm = {"k": 1, "j": 2}`, "sa = [1, 2, 3]",
+		`nest = {"in": {"a": 1, "b": 2, "c": 3, "d": 4, "e": 5}, "z": [1, 2], "y": {"k": 1}}`, `deep = {1: "i", 2: [1, {"a": 1, "b": 2, "c": 3, "d": 4, "e": 5}], 3: nil, 4: true, 5: 1.5}`,
+		"setbm = func(k, v) {bm[k] = v}", "setba = func(i, v) {ba[i] = v}", "show = func() {println(bm, ba, sm, sa, nest, deep, x)}", "x = 1",
+		"setx = func(v) {x = v}", "incx = func() {x++}", "grow = func() {ba = ba + 13}"}
+	shows := []string{"println(bm, ba, sm, sa, nest, deep, x)", "print(bm); print(nest); print(deep); print(x)", "@echo bm", "@echo [bm, ba, sm, sa, nest, deep, x]", "save()", "show()",
+		"log(bm, nest, deep, x)", "bmtxt = join([bm, nest, deep, ba, x])", "str(bm) + str(nest) + str(deep)", "json(bm) + json(nest) + json(deep)", "bm == bm && nest == nest && deep == deep"}
+	mods := [][]string{{"bm.a = 7"}, {`bm["e"] = "new"`}, {`setbm("c", [1, 2])`}, {"for i = 3 {bm.b = i + 10}"}, {"ba[0] = 99"}, {"setba(11, nil)"}, {"sm.k = 9"}, {"sa[1] = 8"},
+		{"t = nest.in", "t.b = 22", "nest.in = t"}, {"t = nest.y", "t.k = 2", "nest.y = t"}, {"t = nest.z", "t[0] = 5", "nest.z = t"}, {`nest.in = {"a": 1, "b": 2, "c": 3, "d": 4, "e": 6}`},
+		{"t = deep[2]", "u = t[1]", "u.e = 55", "t[1] = u", "deep[2] = t"}, {"deep[3] = 33"}, {"bm.a = 7", "bm.a = 1"}, {"bm.zz = 0", "bm.a = 7"}, {"del(bm.b)", "bm.a = 7"},
+		{"bm2 = bm", "bm.a = 7"}, {"bm2 = bm", "bm2.a = 7"}, {"setx(2)"}, {"incx()"}, {"x++"}, {"grow()"}, {"for i = 2 {setx(i + 10)}"}}
+	cat := func(xs ...[]string) []string {
+		var r []string
+		for _, x := range xs {
+			r = append(r, x...)
+		}
+		return r
+	}
+	for mi, mod := range mods {
+		for si, show := range shows {
+			sh := []string{show}
+			// every show x every change inside ONE session: a later session, or the one that created the values
+			if (mi+si)%2 == 0 {
+				add(setup2, cat(sh, mod))
+			} else {
+				add(cat(setup2, sh, mod))
+			}
+			// and, taken in turn, spread over sessions
+			switch (mi + si) % 4 {
+			case 0:
+				add(setup2, sh, mod) // printed in one session, changed in the next
+			case 2:
+				add(setup2, cat(mod, sh, mod, sh), []string{"x = 3"}) // changed, printed, changed again; another session after it
+			}
+		}
+		add(setup2, cat([]string{shows[mi%len(shows)]}, mod, []string{shows[(mi+1)%len(shows)]}, mods[(mi+1)%len(mods)], []string{shows[(mi+2)%len(shows)]}, mods[(mi+2)%len(mods)]))
 	}
 	return out
 }
@@ -178,9 +228,9 @@ func c14RunSessionCases(dir string, cases []c14SessCase) ([]c14SessRes, error) {
 	return res, nil
 }
 
-// c14SessDiff: the differences between what the last session held and what a fresh session loads (float->int of the
-// listed finding not counted, reported separately).
-func c14SessDiff(r c14SessRes) (diffs []string, float2int int) {
+// c14SessRecord: the record SaveLoad_Trace.tla judges (k = "sess"): b = the data globals the last session held (a name
+// only the fresh session has is listed with the value "absent"), a.vals = what the fresh session holds.
+func c14SessRecord(id string, r c14SessRes) c14TR {
 	names := map[string]bool{}
 	for k := range r.Memory {
 		names[k] = true
@@ -193,19 +243,49 @@ func c14SessDiff(r c14SessRes) (diffs []string, float2int int) {
 		ns = append(ns, k)
 	}
 	sort.Strings(ns)
+	t := c14TR{K: "sess", ID: id, Lines: []string{}, LinesU: []string{}, Names: []string{}, B: [][]any{},
+		A: c14TRPath{Vals: [][]any{}, Idem: true, Calls: [][]any{}}, W: c14TRPath{Vals: [][]any{}, Idem: true, Calls: [][]any{}}}
 	for _, k := range ns {
-		m, l := r.Memory[k], r.Loaded[k]
-		if m == l {
-			continue
+		m, inM := r.Memory[k]
+		l, inL := r.Loaded[k]
+		if !inM {
+			m = J{"t": "absent"}
 		}
-		// listed finding save-float-integral-reloads-as-int: FLOAT:2 reloads as INTEGER:2 (judged by the single-session cases)
-		if strings.HasPrefix(m, "FLOAT:") && strings.HasPrefix(l, "INTEGER:") && strings.TrimPrefix(m, "FLOAT:") == strings.TrimPrefix(l, "INTEGER:") {
-			float2int++
-			continue
+		if !inL {
+			l = J{"t": "nil"}
 		}
-		diffs = append(diffs, fmt.Sprintf("%s: session ended with %q, fresh session loads %q", k, m, l))
+		t.B = append(t.B, []any{k, "data", m})
+		t.A.Vals = append(t.A.Vals, []any{k, inL, l})
 	}
-	return
+	return t
+}
+
+// c14SessExplain: the failed items of a session record as text, and the listed findings that explain them
+// ("" = none does).
+func c14SessExplain(t c14TR, fails []string) (string, map[string]bool) {
+	sigs := map[string]bool{}
+	var what []string
+	for _, f := range fails {
+		name := strings.TrimPrefix(f, "rt:A:")
+		for i, b := range t.B {
+			if b[0].(string) != name {
+				continue
+			}
+			m, l := c14AsJ(b[2]), c14AsJ(t.A.Vals[i][2])
+			switch {
+			case m["t"] == "absent":
+				what = append(what, fmt.Sprintf("%s is not bound when the last session ends, the fresh session loads %.100s", name, jstr(l)))
+				sigs[""] = true
+			case !t.A.Vals[i][1].(bool):
+				what = append(what, fmt.Sprintf("%s = %.100s is not bound in the fresh session", name, jstr(m)))
+				sigs[""] = true
+			default:
+				what = append(what, c14FirstDiff(name, m, l))
+				c14Explain(m, l, map[string]bool{}, sigs)
+			}
+		}
+	}
+	return strings.Join(what, "; "), sigs
 }
 
 func c14ReplaySessions(rp map[string]any) (bool, string) {
@@ -223,33 +303,81 @@ func c14ReplaySessions(rp map[string]any) (bool, string) {
 	if err != nil {
 		return false, "infrastructure: " + err.Error()
 	}
-	if d, _ := c14SessDiff(res[0]); len(d) > 0 || res[0].Err != "" {
-		return false, strings.Join(d, "; ") + " " + res[0].Err
+	t, err := c14Norm(c14SessRecord("sess:replay", res[0]))
+	if err != nil {
+		return false, err.Error()
+	}
+	if fails := c14Judge(t); len(fails) > 0 || res[0].Err != "" {
+		what, _ := c14SessExplain(t, fails)
+		return false, what + " " + res[0].Err
 	}
 	return true, ""
 }
 
-func c14RunSessions(c *Ctx) {
-	cases := c14SessionHistories()
-	res, err := c14RunSessionCases(filepath.Join(c.Scratch(), "c14sess"), cases)
-	if err != nil {
+type c14SessRun struct {
+	cases []c14SessCase
+	res   []c14SessRes
+	recs  []c14TR
+}
+
+// c14RunSessions runs the histories on the real code and builds their records (judged with the other records).
+func c14RunSessions(c *Ctx) *c14SessRun {
+	sr := &c14SessRun{cases: c14SessionHistories()}
+	var err error
+	if sr.res, err = c14RunSessionCases(filepath.Join(c.Scratch(), "c14sess"), sr.cases); err != nil {
 		c.Infra(err)
-		return
+		return nil
 	}
-	float2int := 0
-	for i, r := range res {
-		cs := cases[i]
+	for i, r := range sr.res {
+		t, err := c14Norm(c14SessRecord(fmt.Sprintf("sess:%d", sr.cases[i].ID), r))
+		if err != nil {
+			c.Infra(err)
+			return nil
+		}
+		sr.recs = append(sr.recs, t)
+	}
+	return sr
+}
+
+// c14JudgeSessions: TLC's verdicts for the session records, cross-checked with the mirror and attributed.
+func c14JudgeSessions(c *Ctx, sr *c14SessRun, verdicts map[string][]string) bool {
+	known := map[string]int{}
+	for i, r := range sr.res {
+		cs, t := sr.cases[i], sr.recs[i]
 		key := fmt.Sprint(cs.Sessions[1:])
+		if len(cs.Sessions) == 1 {
+			key = fmt.Sprint(cs.Sessions)
+		}
 		c.Case("sessions:"+key, true)
-		diffs, f2i := c14SessDiff(r)
-		float2int += f2i
-		if len(diffs) == 0 && r.Err == "" {
-			c.AddTraces(1)
+		tf, ok := verdicts[t.ID]
+		if !ok {
+			c.Infra(fmt.Errorf("no TLC verdict for %s", t.ID))
+			return false
+		}
+		if gf := c14Judge(t); strings.Join(tf, "\x00") != strings.Join(gf, "\x00") {
+			c.Infra(fmt.Errorf("verdict mismatch between SaveLoad_Trace.tla and the harness mirror on %s: TLC %v, Go %v", t.ID, tf, gf))
+			return false
+		}
+		c.AddTraces(1)
+		if len(tf) == 0 && r.Err == "" {
 			continue
 		}
-		c.Fail("c14-sessions-last-state-not-reloaded", fmt.Sprintf("sessions %s: %s %s (file %q)", key, strings.Join(diffs, "; "), r.Err, clip(r.File, 200)),
-			map[string]any{"check": "sessions", "sessions": cs.Sessions})
+		what, sigs := c14SessExplain(t, tf)
+		if r.Err != "" {
+			sigs[""] = true
+		}
+		rp := map[string]any{"check": "sessions", "sessions": cs.Sessions}
+		msg := fmt.Sprintf("sessions %s: %s %s (file %q)", key, what, r.Err, clip(r.File, 200))
+		if sigs[""] || len(sigs) == 0 {
+			c.Fail("c14-sessions-last-state-not-reloaded", msg, rp)
+			continue
+		}
+		for s := range sigs { // a listed loss of the printed form (judged by the single-session cases), seen through a history
+			known[s]++
+			c.Fail(s, msg, rp)
+		}
 	}
-	c.Cov("autosave_session_histories", len(cases))
-	c.Cov("autosave_session_float_as_int_not_counted", float2int)
+	c.Cov("autosave_session_histories", len(sr.cases))
+	c.Cov("autosave_session_histories_failing_by_listed_finding", known)
+	return true
 }
